@@ -32,8 +32,14 @@ func (s *ssim) checkServed(sv *server, req *messages.BlockRequestMessage, resp *
 	}
 	if len(bds) == 0 {
 		class := "empty-response-without-error"
-		if n, ok := req.StartingBlock.RawValue().(uint); ok && n == 0 && req.Direction == messages.Descending {
-			class = "descending-from-number-zero-empty-response"
+		if n, ok := req.StartingBlock.RawValue().(uint); ok && req.Direction == messages.Descending {
+			// the server starts a descending request by number at min(number, its best number): the recorded
+			// finding is the request whose effective start is block 0 (asked for directly, or asked of a
+			// server that holds nothing but the genesis block)
+			best, _ := sv.bs.BestBlockNumber()
+			if n == 0 || best == 0 {
+				class = "descending-from-number-zero-empty-response"
+			}
 		}
 		k.Violate("C31", "serve", class, "server %d answered %s with an empty response and no error", sv.id, desc)
 	}
